@@ -289,6 +289,9 @@ func tokOfMsg(m *dnsmsg.Msg) int {
 
 var own *vtrace.Own
 
+var stormOn atomic.Bool
+var stormAddr = netip.MustParseAddr("127.0.9.9")
+
 func installSink() {
 	verifhook.SetSink(func(name string, args []any) {
 		if own != nil && own.Handle(name, args) {
@@ -298,6 +301,22 @@ func installSink() {
 		case "rt.req", "rt.done", "rt.rule", "rt.fwd", "cache.get", "cache.store", "cache.stored", "pf.reserve", "pf.done", "lim.cl":
 		default:
 			return
+		}
+		if stormOn.Load() { // direct bursts (modes.go, directStorm): the burst's own requests are not recorded
+			switch name {
+			case "rt.req", "rt.done", "rt.rule":
+				if router.VerifReadRC(args[2]).Remote.Addr() == stormAddr {
+					return
+				}
+			case "cache.get":
+				if router.VerifReadRC(args[7]).Remote.Addr() == stormAddr {
+					return
+				}
+			case "pf.reserve":
+				if !args[2].(bool) {
+					return
+				}
+			}
 		}
 		in := owner(args[0])
 		if in == nil {
